@@ -34,7 +34,9 @@ func init() {
 		Families: []fw.Family{
 			{Name: "corpus", N: func(string) int { return len(corpus.All()) }, Gen: c03GenCorpus, Eval: c03Eval},
 			{Name: "multifault", N: constN(2500, 60000), Gen: c03GenMultiFault, Eval: c03Eval},
+			{Name: "final-stage-faults", N: constN(300, 6000), Gen: c03GenFinalStage, Eval: c03Eval},
 			{Name: "after-other-projects", N: constN(600, 15000), Gen: c03GenMultiFault, Eval: c03EvalHistory},
+			{Name: "after-failed-projects", N: constN(500, 12000), Gen: c03GenAfterFailure, Eval: c03EvalAfterFailure},
 			{Name: "concurrent", N: constN(150, 3000), Gen: c03GenMultiFault, Eval: c03EvalConcurrent},
 			{Name: "concurrent-accepted", N: constN(400, 8000), Gen: genModelCase, Eval: c03EvalConcurrentModel},
 		},
@@ -336,6 +338,25 @@ var c03Kinds = []faultKind{
 		fmt.Fprintf(sb, "GET /rt%d\n  Tags %s %s\n  200 any\n", *u, strings.Join(names, " "), names[0])
 		fmt.Fprintf(sb, "URL /rtu%d\n  Tags %s %s %s\n  POST\n    Request any\n    200 any\n", *u, names[len(names)-1], strings.Join(names, " "), names[1%len(names)])
 	}},
+	{"faults-of-different-final-validations", func(sb *strings.Builder, k int, u *int) {
+		// the catalog is complete; the last stage (info, request bodies, response bodies, headers) finds two or more faults
+		// that belong to different validations of that stage, with healthy interactions in between so that none is instant
+		*u++
+		pieces := []string{
+			fmt.Sprintf("POST /fvb%d\n  Request\n    Headers\n    {\"h\": \"v\"}\n  200 any\n", *u),
+			fmt.Sprintf("GET /fvc%d\n  20%d\n    Headers\n    {\"h\": \"v\"}\n", *u, k%5),
+			fmt.Sprintf("GET /fvd%d\n  200\n    Headers\n    @fvnon%d\n    Body any\nTYPE @fvnon%d\n[1]\n", *u, *u, *u),
+			"INFO\n",
+		}
+		first := (*u + k) % len(pieces)
+		n := 2 + k%3
+		for i := 0; i < n; i++ {
+			sb.WriteString(pieces[(first+i)%len(pieces)])
+			for j := 0; j < 20*k; j++ {
+				fmt.Fprintf(sb, "GET /fvh%d_%d_%d\n  200 any\n", *u, i, j)
+			}
+		}
+	}},
 	{"override-inherited", func(sb *strings.Builder, k int, u *int) {
 		for i := 0; i < k; i++ {
 			*u++
@@ -403,6 +424,130 @@ func c03GenMultiFault(r *xrand.Rand, idx int, tier string) *fw.Case {
 	c.Docs[0].FixedSeed = r.Bool()
 	c.Meta = map[string]string{"kinds": strings.Join(kinds, "+")}
 	return c
+}
+
+// c03GenFinalStage: a project that is complete and passes everything up to the final validations of the catalog, where
+// two or more faults of different validations wait (optionally after healthy multi-entry content).
+func c03GenFinalStage(r *xrand.Rand, idx int, tier string) *fw.Case {
+	var sb strings.Builder
+	sb.WriteString("JSIGHT 0.3\n")
+	u := idx * 1000
+	kinds := []string{"faults-of-different-final-validations"}
+	if r.Bool() {
+		c03Healthy(&sb, r, r.Range(3, 5), &u)
+		kinds = append(kinds, "healthy-multi-entry")
+	}
+	for _, fk := range c03Kinds {
+		if fk.name == kinds[0] {
+			fk.gen(&sb, r.Range(2, 6), &u)
+		}
+	}
+	c := oneDocCase([]byte(sb.String()), "", "final-stage multi-fault document")
+	c.Meta = map[string]string{"kinds": strings.Join(kinds, "+")}
+	return c
+}
+
+// c03GenAfterFailure: Docs[0] is a healthy project of user types that use each other (declared in a random order, so
+// that a type often stands before the types it uses); Docs[1..] are the same project with one fault that only loading or
+// checking a type finds, in a type that others use. The healthy project is processed, then a faulty one, then the healthy
+// one again: what a rejected project leaves behind in the process must not change the result of the next one.
+func c03GenAfterFailure(r *xrand.Rand, idx int, tier string) *fw.Case {
+	n := r.Range(3, 7)
+	u := idx
+	name := func(i int) string { return fmt.Sprintf("@af%d_%d", u, i) }
+	type tdef struct {
+		head  string
+		props []string
+	}
+	defs := make([]tdef, n)
+	for i := 0; i < n; i++ {
+		defs[i].head = "TYPE " + name(i)
+		var props []string
+		for j := i + 1; j < n; j++ {
+			if j == i+1 || r.Chance(1, 3) {
+				switch r.Intn(4) {
+				case 0:
+					props = append(props, fmt.Sprintf("\"p%d\": %s", j, name(j)))
+				case 1:
+					props = append(props, fmt.Sprintf("\"p%d\": [%s]", j, name(j)))
+				case 2:
+					props = append(props, fmt.Sprintf("\"p%d\": %s | %s", j, name(j), name(n-1)))
+				default:
+					props = append(props, fmt.Sprintf("\"p%d\": 1 // {or: [\"%s\", \"integer\"]}", j, name(j)))
+				}
+			}
+		}
+		if i > 0 && r.Chance(1, 4) {
+			props = append(props, fmt.Sprintf("\"back%d\": %s // {optional: true}", i, name(r.Intn(i))))
+		}
+		props = append(props, fmt.Sprintf("\"own%d\": %d", i, i))
+		defs[i].props = props
+	}
+	order := r.Perm(n)
+	if r.Chance(1, 2) {
+		for i := range order {
+			order[i] = i
+		}
+	}
+	render := func(faultAt int, fault string) []byte {
+		var sb strings.Builder
+		sb.WriteString("JSIGHT 0.3\n")
+		for _, i := range order {
+			sb.WriteString(defs[i].head + "\n{\n")
+			pp := defs[i].props
+			if i == faultAt {
+				pp = append(append([]string{}, pp...), fault)
+			}
+			for k, p := range pp {
+				// a comma goes before an end-of-line annotation
+				line := p
+				if k < len(pp)-1 {
+					if at := strings.Index(p, " //"); at >= 0 {
+						line = p[:at] + "," + p[at:]
+					} else {
+						line = p + ","
+					}
+				}
+				sb.WriteString("  " + line + "\n")
+			}
+			sb.WriteString("}\n")
+		}
+		fmt.Fprintf(&sb, "GET /af%d\n  200 %s\n", u, name(0))
+		return []byte(sb.String())
+	}
+	c := &fw.Case{Note: "healthy project of types, then the same with a fault in a used type, then the healthy one again"}
+	c.Docs = append(c.Docs, run.Single(render(-1, "")))
+	faults := []string{"\"bad\": \"s\" // {type: \"integer\"}", "\"bad\": 1 // {min: \"q\"}", "\"bad\": 1 // {precision: 2}", "\"bad\": 1 // {enum: @nosuchenum}", "\"bad\": 1 // {nosuchrule: 1}", "\"bad\": @nosuchtype", "\"bad\": 5 // {max: 2}"}
+	for k := r.Range(2, 3); k > 0; k-- {
+		c.Docs = append(c.Docs, run.Single(render(r.Range(1, n-1), faults[r.Intn(len(faults))])))
+	}
+	c.Meta = map[string]string{"kinds": fmt.Sprintf("type-graph n%d after-failed-projects", n)}
+	return c
+}
+
+func c03EvalAfterFailure(t *fw.T, c *fw.Case) {
+	healthy := c.Docs[0]
+	first := t.Exec(healthy)
+	fp := fingerprint(first)
+	t.Count("repetitions")
+	if first.Outcome == run.Accepted {
+		t.Count("healthy_projects_accepted")
+	}
+	for _, bad := range c.Docs[1:] {
+		ob := t.Exec(bad)
+		if ob.Outcome == run.Rejected {
+			t.Count("failed_predecessors")
+		}
+		o := t.Exec(healthy)
+		t.Count("repetitions")
+		t.Count("history_pairs_compared")
+		if f := fingerprint(o); f != fp {
+			t.Violation("depends-on-failed-predecessor:"+c03Sig(first, o), fmt.Sprintf("the same project gave another result after a rejected project was processed in the same process:\n  before: %s\n  after:  %s\n  rejected project in between: %s\n%s\n  project %s",
+				describe(first), describe(o), describe(ob), fw.Short(bad.Files[bad.Root], 500), fw.Short(healthy.Files[healthy.Root], 500)))
+			return
+		}
+	}
+	t.Distinct(c.Meta["kinds"] + " | " + outcomeClass(first))
 }
 
 // ---- cross-process comparison ----
